@@ -3,6 +3,7 @@ from __future__ import annotations
 
 from spverif.core.util import attempt, exc_sig, pool_uint, rand_uint
 
+THOROUGH_SCALE = 8
 ID = "C20"
 LEVEL = "exploration"
 SHARDS = {"quick": 1, "thorough": 16}
